@@ -6,9 +6,11 @@
 //! after a tab.
 //!
 //! stdin: one case per line: `"<source>" (mod "a/b" "<source>")*`
-//! stdout: `(ast <Program> (mod "<path>" <Program>)*)` | `(parse-error)` |
+//! stdout: `(ast <Program> ((mod "<path>" <Program>) | (use "<std path>"))*)` | `(parse-error)` |
 //!         `(module-error "<path>")` (an import that does not resolve / does not parse / resolves
 //!         differently from the std and the entry package), then with --eval `\t<qv_eval line>`.
+//! `qv_ast --std` prints one `(mod "<path>" <Program>)` line per bundled std module instead
+//! (a case refers to those by `(use "<path>")`).
 //! The dump format is the one of qv_format.rs (C17) minus the chain span offset.
 use qvh::hex;
 use qvh::sexp::{self, Sexp};
@@ -286,7 +288,7 @@ fn dump_case(src: &str, modules: &HashMap<Vec<String>, String>) -> String {
     };
     let main = d_program(&program);
     let resolver = PackageResolver::memory(modules.clone());
-    let mut done: BTreeMap<Vec<String>, Sexp> = BTreeMap::new();
+    let mut done: BTreeMap<Vec<String>, Option<Sexp>> = BTreeMap::new();
     let mut todo: Vec<Vec<String>> = vec![];
     imports_of(&main, &mut todo);
     while let Some(path) = todo.pop() {
@@ -308,23 +310,71 @@ fn dump_case(src: &str, modules: &HashMap<Vec<String>, String>) -> String {
             (Ok(a), Err(_)) => a,
             _ => return format!("(module-error {})", sexp::quote(&path.join("/"))),
         };
+        if resolved.id.package == PackageId::Std {
+            // bundled std module: dumped once by `--std`, referenced by path here
+            done.insert(path, None);
+            continue;
+        }
         let ast = match parse(&resolved.source) {
             Ok(p) => p,
             Err(_) => return format!("(module-error {})", sexp::quote(&path.join("/"))),
         };
         let d = d_program(&ast);
         imports_of(&d, &mut todo);
-        done.insert(path, d);
+        done.insert(path, Some(d));
     }
     let mut v = vec![a("ast"), main];
     for (path, d) in done {
-        v.push(Sexp::List(vec![a("mod"), Sexp::Str(path.join("/")), d]));
+        match d {
+            Some(d) => v.push(Sexp::List(vec![a("mod"), Sexp::Str(path.join("/")), d])),
+            None => v.push(Sexp::List(vec![a("use"), Sexp::Str(path.join("/"))])),
+        }
     }
     Sexp::List(v).to_string()
 }
 
+/// `--std`: one line `(mod "<path>" <Program>)` per bundled std module (the embedded sources
+/// the compiler itself loads), found by resolving every `*.qv` name of $QUIVER_REPO/std from the
+/// std package and following imports.
+fn dump_std() {
+    let resolver = PackageResolver::memory(HashMap::new());
+    let repo = std::env::var("QUIVER_REPO").unwrap_or_else(|_| "/repo".to_string());
+    let mut todo: Vec<Vec<String>> = vec![];
+    if let Ok(rd) = std::fs::read_dir(format!("{}/std", repo)) {
+        for e in rd.flatten() {
+            let n = e.file_name().to_string_lossy().to_string();
+            if let Some(stem) = n.strip_suffix(".qv") {
+                todo.push(vec![stem.to_string()]);
+            }
+        }
+    }
+    todo.sort();
+    let mut done: BTreeMap<Vec<String>, Sexp> = BTreeMap::new();
+    while let Some(path) = todo.pop() {
+        if done.contains_key(&path) {
+            continue;
+        }
+        let Ok(resolved) = resolver.resolve(&PackageId::Std, &path) else {
+            continue;
+        };
+        let Ok(ast) = parse(&resolved.source) else {
+            continue;
+        };
+        let d = d_program(&ast);
+        imports_of(&d, &mut todo);
+        done.insert(path, d);
+    }
+    for (path, d) in done {
+        println!("{}", Sexp::List(vec![a("mod"), Sexp::Str(path.join("/")), d]));
+    }
+}
+
 fn main() {
     qvh::quiet_panics();
+    if std::env::args().any(|x| x == "--std") {
+        dump_std();
+        return;
+    }
     let with_eval = std::env::args().any(|x| x == "--eval");
     for line in qvh::stdin_cases() {
         let items = sexp::parse_all(&line);
